@@ -26,7 +26,8 @@ def main():
             "guard": "--cfg audunhalland_entrait_verif",
             "enable": "RUSTFLAGS='--cfg audunhalland_entrait_verif' cargo build in /verif/subject (path dependency on /repo, own CARGO_TARGET_DIR /verif/.cache/subject); every check does this itself",
             "baseline_off_cmd": "cd /repo && cargo nextest run --workspace --no-fail-fast --offline || cargo test --workspace --no-fail-fast --offline",
-            "source_commits": ["1a633f1 verif hook: expansion recorder behind --cfg audunhalland_entrait_verif"],
+            "source_commits": ["1a633f1 verif hook: expansion recorder behind --cfg audunhalland_entrait_verif",
+            "7b5918f verif hook: rustfmt (formatting of the guarded code only)"],
             "add_only": True,
         },
         "engines": [
